@@ -122,6 +122,33 @@ func checkSign(c signCase) (h.Info, error) {
 	if !bytes.Equal(seed, seedCopy) || !bytes.Equal(msg, msgCopy) {
 		return info, fmt.Errorf("inputs modified")
 	}
+	// the values handed out are copies: scribbling over them must not change the key or later signatures
+	p2 := priv.Public().(ed25519.PublicKey)
+	s2 := priv.Seed()
+	for i := range p2 {
+		p2[i] ^= 0xff
+	}
+	for i := range s2 {
+		s2[i] ^= 0xff
+	}
+	for i := range sig {
+		sig[i] = 0
+	}
+	if !bytes.Equal(priv, std) {
+		return info, fmt.Errorf("writing into the slices returned by Public()/Seed() changed the private key: %x, want %x", []byte(priv), []byte(std))
+	}
+	if again := ed25519.Sign(priv, msg); !bytes.Equal(again, want) {
+		return info, fmt.Errorf("after writing into the slices returned by Public()/Seed() the same key and message sign to %x, crypto/ed25519 %x", again, want)
+	}
+	// NewKeyFromSeed must not retain the caller's seed slice
+	seedBuf := append([]byte{}, seed...)
+	k2 := ed25519.NewKeyFromSeed(seedBuf)
+	for i := range seedBuf {
+		seedBuf[i] = 0xee
+	}
+	if !bytes.Equal(k2, std) || !bytes.Equal(ed25519.Sign(k2, msg), want) {
+		return info, fmt.Errorf("NewKeyFromSeed retained the caller's seed slice")
+	}
 	return info, nil
 }
 
